@@ -4,6 +4,8 @@ INIT Init
 NEXT Next
 INVARIANT Legal
 INVARIANT DenLayout
+INVARIANT PackIsFold
+INVARIANT ComposeLegal
 INVARIANT RoundTrip
 INVARIANT Locality
 INVARIANT EmitState
